@@ -35,7 +35,7 @@ Dims == [
   leafPki  |-> <<"A", "B">>,
   interPki |-> <<"A", "B">>,
   rootPki  |-> <<"A", "B">>,
-  pool     |-> <<"A", "B", "AB", "empty", "nil", "AI">>,     \* AI: root A and its platform CA certificate
+  pool     |-> <<"A", "B", "AB", "empty", "nil", "AI">>,     \* AI: root A and the platform CA certificate the quote carries (the same certificate, whatever its dates)
   rotVia   |-> <<"pool", "files", "inline", "mixed", "fileEmpty", "inlineNonPem">>,   \* how the caller builds the pool: directly, or with
                                                \* RootOfTrustToOptions from bundle files / inline PEM / both / an empty file / a non-PEM string
   leafRole |-> <<"pck", "wrongCN", "pckByRoot", "caAsLeaf", "tcbSignByRoot", "cnUpper", "cnSpace", "cnKelvin">>,   \* cn*: issued like a PCK leaf, named almost like one (case, trailing space, a Unicode look-alike letter)
